@@ -1923,7 +1923,15 @@ class SessionCache(object):
                 continue
 
             if not isinstance(reverse, Set): throw(NotImplementedError)
-            if reverse in modified_m2m: continue
+            if reverse in modified_m2m:
+                # the changes were already collected from the other side of the relationship,
+                # but the bookkeeping of this side has to be reset too
+                for obj in objects:
+                    if obj._status_ == 'marked_to_delete': obj._vals_.pop(attr, None)
+                    else:
+                        setdata = obj._vals_[attr]
+                        setdata.added = setdata.removed = setdata.absent = None
+                continue
             added, removed = modified_m2m.setdefault(attr, (set(), set()))
             for obj in objects:
                 setdata = obj._vals_[attr]
